@@ -57,9 +57,6 @@ impl Scenario for FrameRender {
     fn name(&self) -> &'static str {
         "frame_render"
     }
-    fn isolated(&self) -> bool {
-        false
-    }
     fn quick_runs(&self, _f: &str) -> u64 {
         9600
     }
